@@ -315,7 +315,16 @@ def oracle(info, obs, stats=None):
             if len(holding) >= 2:
                 stats['ties(>=2 conditions hold)'] = stats.get('ties(>=2 conditions hold)', 0) + 1
         if got != want:
-            return (f'call({",".join(xs) or "-"}) gave {got}, the first matching condition/default rule demands {want}', finding_key(info, got))
+            key = finding_key(info, got)
+            if key == 'K1-first-when-without-args':
+                # narrow match: exactly what "the first Return became the default" predicts, nothing else
+                later = [r for c, r in view['conds'][1:] if cond_holds(c, xs)]
+                k1 = f'ret:{later[0]}' if later else f'ret:{view["conds"][0][1]}'
+                if o == 0:
+                    k1 = 'ret:-'
+                if got != k1:
+                    key = None
+            return (f'call({",".join(xs) or "-"}) gave {got}, the first matching condition/default rule demands {want}', key)
     return None
 
 
@@ -398,7 +407,7 @@ def run(tier):
     diffs = C.diff_streams(ops, impl, model) if model is not None else []
     if model is None:
         proof['failed'].append(('goomdrv', 'driver does not build: ' + derr[-500:]))
-    if not bad:
+    if not out.violations:      # known findings do not hide a broken correspondence or proof
         if diffs:
             i, op, a, b = diffs[0]
             out.violation(f'model and implementation disagree on `{op}`', {'kind': 'correspondence', 'ops': [op], 'impl': a, 'model': b,
